@@ -133,3 +133,17 @@ PROPS["C05"] = {
     "level_note": "partial: the validator's verdict is an oracle (validated differentially), the glue around it is proved.",
     "theorem_status": {"C05_all_validated": "proved", "C05_literals_included": "proved", "C05_reject": "proved"},
 }
+
+PROPS["C18"] = {
+    "coq": ["Properties/C18.v", "Corr/C18corr.v"],
+    "trusted": [
+        "gqlparser attaches file and location to its parse/validation errors; go/token positions of string literals; fmt's %v of an int and strconv.Atoi are modelled at byte level (dec/atoi, round-trip proved)",
+        "WHICH position each error site of convert.go / genqlient_directive.go passes to errorf is not modelled; it is covered by the oracle (true file and line known from the rendering) on 15 fault classes",
+    ],
+    "assumptions": ["paths without ':' (hypothesis no_colon; the statement without it is refuted in Coq)"],
+    "level_text": "Byte-level theorems for every file name without ':' and all line numbers: Atoi(Sprint n)=n; a node on line l of a .graphql file prints file:l; a node on line l of a literal opened on Go line L prints file.go:(L+l-1); errorf prefers the explicit node position, then a wrapped genqlient position, then a wrapped gqlparser location. Tied to errors.go/parse.go by injecting one positioned fault (15 classes) into random programs laid out over .graphql files and raw/interpreted Go literals at random offsets and comparing the real message prefix with the model in-kernel and with the true location.",
+    "level_note": "partial: the mapping error site -> position passed is oracle-checked, not proved; two open findings (sites inside convertDefinition report the schema's position; interpreted string literals with escaped newlines).",
+    "theorem_status": {"C18_line_number_roundtrip": "proved", "C18_graphql_line": "proved", "C18_go_line": "proved",
+                       "C18_go_line_colon_path_refuted": "refuted without the no-colon hypothesis (witness a:b/q.go)",
+                       "C18_explicit_position_wins": "proved", "C18_wrapped_graphql_position": "proved", "C18_no_position_iff": "proved"},
+}
